@@ -6,6 +6,8 @@ export CARGO_NET_OFFLINE=true
 python3 tools/gen_lean.py
 python3 tools/rs2lean.py
 (cd lean && lake build TzVerif tzmodel)
+# warm the proof cache (a tree on which a proof obligation is broken must not fail the setup: the checks report it)
+(cd lean && lake build TzVerif.Properties.All > /dev/null 2>&1 || true)
 cp /repo/Cargo.lock harness/Cargo.lock 2>/dev/null || true
 (cd harness && CARGO_TARGET_DIR=target cargo build --offline --release)
 (cd harness && CARGO_TARGET_DIR=target cargo build --offline)
